@@ -2,11 +2,12 @@
    specification and the RFC 8259 recogniser to OCaml (ExtrOcamlBasic only). *)
 From Coq Require Import Extraction ExtrOcamlBasic NArith ZArith.
 From Qv Require Import JsonModel.
-From Qv Require DigitModel gen.Tables_digit.
+From Qv Require DigitModel gen.Tables_digit JsonDigitC08 JsonDigitAlpha JsonDigitShape.
 Extraction Language OCaml.
 Set Extraction Optimize.
 Extraction "model_json.ml"
   N.add N.mul N.sub N.div_eucl N.compare Z.add Z.mul Z.sub Z.div_eucl Z.compare Z.of_N Z.to_N Z.opp
   JsonModel.parse JsonModel.parse_history JsonModel.stringify JsonModel.normalize JsonModel.cprint JsonModel.cdenote
   JsonModel.cval_wf JsonModel.is_container JsonModel.rfc_ok JsonModel.jv_eqb JsonModel.definedb
-  JsonModel.scan_number DigitModel.string_to_number Tables_digit.qn_nan Tables_digit.qn_real Tables_digit.qn_natural Tables_digit.qn_integer JsonModel.unescape JsonModel.escape_json.
+  JsonModel.scan_number DigitModel.string_to_number Tables_digit.qn_nan Tables_digit.qn_real Tables_digit.qn_natural Tables_digit.qn_integer JsonModel.unescape JsonModel.escape_json
+  JsonDigitC08.dtext JsonDigitC08.rfc_numb JsonDigitC08.vleafb JsonDigitAlpha.finite_bits JsonDigitShape.head_digitb.
